@@ -32,7 +32,7 @@ Definition style_ok (S : schema) (st : style) : bool :=
 
 (* simple-content types extend a built-in whose Python type is str: the code
    does not translate the text of an element of complex type at all
-   [proposed C02:simple-content-value-untyped] *)
+   [C02:simple-content-value-untyped] *)
 Definition simple_ok (simple : list (qn * N)) : bool :=
   forallb (fun p => N.eqb (spec_tag (snd p)) tag_str) simple.
 
